@@ -198,7 +198,7 @@ def _module_binding_count(m, name: str) -> int:
     return _BINDING_COUNT_CACHE[key]
 
 
-def _module_literal(p, f: Func, e):
+def _module_literal(p, f: Func, e, tuples=False):
     """Reading ability (3): a module-level name (of this or of an imported package module) that is bound exactly ONCE
     to a str / number literal is its value - `_WILDCARD = '*'` ... `x == _WILDCARD` reads like `x == '*'`.
     UNKNOWN for locals, parameters, rebound names and anything that does not fold to a scalar."""
@@ -223,7 +223,14 @@ def _module_literal(p, f: Func, e):
             return UNKNOWN
     if _module_binding_count(owner, name) != 1:
         return UNKNOWN
-    v = p.fold(owner, owner.consts[name])
+    node = owner.consts[name]
+    if tuples and isinstance(node, ast.Tuple):
+        # a tuple display of plain constants (`_UNRESOLVED = (None, None, None)`): tuples are immutable, the name is bound
+        # once, so every read of the name is this value
+        if all(isinstance(x, ast.Constant) and (x.value is None or isinstance(x.value, (str, int, float, bytes))) for x in node.elts):
+            return tuple(x.value for x in node.elts)
+        return UNKNOWN
+    v = p.fold(owner, node)
     if isinstance(v, bool) or not isinstance(v, (str, int, float)):
         return UNKNOWN
     return v
@@ -233,7 +240,9 @@ def _lit(p, f: Func, e):
     """`e` as a literal node: itself when it is a Constant, a Constant of the value for a once-bound module-level
     literal name, else `e` unchanged."""
     if isinstance(e, (ast.Name, ast.Attribute)):
-        v = _module_literal(p, f, e)
+        v = _module_literal(p, f, e, tuples=True)
+        if isinstance(v, tuple):
+            return ast.copy_location(ast.Tuple(elts=[ast.copy_location(ast.Constant(value=x), e) for x in v], ctx=ast.Load()), e)
         if v is not UNKNOWN:
             return ast.copy_location(ast.Constant(value=v), e)
     return e
@@ -1795,6 +1804,20 @@ def r1_score_order(run):
     elif len(key) == 1 and isinstance(key[0], ast.Call) and (dotted(key[0].func) or '').split('.')[-1] == 'itemgetter' \
             and len(key[0].args) == 1 and not key[0].keywords:
         key_idx = p.fold(bm.module, key[0].args[0], None, None)
+    elif len(key) == 1 and isinstance(key[0], (ast.Name, ast.Attribute)):
+        # a module-level one-return function reads like the lambda: `def _quality_of(pair): return pair[1]`
+        kf = p.resolve_callable(bm, key[0])
+        if isinstance(kf, Func) and kf.parent is None and not kf.is_async and not kf.node.decorator_list:
+            a = kf.node.args
+            body = [st for st in kf.node.body
+                    if not (isinstance(st, ast.Expr) and isinstance(st.value, ast.Constant) and isinstance(st.value.value, str))]
+            if len(a.args) + len(a.posonlyargs) == 1 and not a.vararg and not a.kwarg and not a.kwonlyargs \
+                    and len(body) == 1 and isinstance(body[0], ast.Return):
+                pn = (a.posonlyargs + a.args)[0].arg
+                b = body[0].value
+                if isinstance(b, ast.Subscript) and isinstance(b.value, ast.Name) and b.value.id == pn:
+                    run.use(kf)
+                    key_idx = p.fold(kf.module, b.slice, None, None)
     if not isinstance(key_idx, int) or isinstance(key_idx, bool):
         raise UnknownIdiom('best_match(): ranking key of %s' % short(call, 100))
     ok_key = key_idx in (qi, qi - 2)
@@ -2909,14 +2932,35 @@ def _constructor_call(p, f: Func, v) -> Optional[bool]:
 # R4 the resolution rule
 # ---------------------------------------------------------------------------
 
-def _is_selfdata(e) -> bool:
-    return is_self_attr(e, DATA)
+def _is_selfdata(e, aliases=frozenset()) -> bool:
+    return is_self_attr(e, DATA) or (isinstance(e, ast.Name) and e.id in aliases)
 
 
-def _mentions_mapping(e) -> bool:
+def _data_aliases(res: Func) -> Set[str]:
+    """Locals of the resolver that ARE the current mapping: stored exactly once in the resolver's own body, by a plain
+    `name = self.data` (so every call reads the mapping of that moment; a binding in the enclosing factory is not
+    followed - it could go stale).  `data[mt]` / `tuple(data)` then read like `self.data[mt]` / `tuple(self.data)`."""
+    stores: Dict[str, int] = {}
+    for n in walk_self(res.node):
+        if isinstance(n, ast.Name) and isinstance(n.ctx, (ast.Store, ast.Del)):
+            stores[n.id] = stores.get(n.id, 0) + 1
+        elif isinstance(n, (ast.Nonlocal, ast.Global)):
+            for x in n.names:
+                stores[x] = stores.get(x, 0) + 2
+    params = set(_param_names(res, skip_self=False))
+    out: Set[str] = set()
+    for n in walk_self(res.node):
+        if isinstance(n, ast.Assign) and len(n.targets) == 1 and isinstance(n.targets[0], ast.Name) and is_self_attr(n.value, DATA):
+            name = n.targets[0].id
+            if stores.get(name) == 1 and name not in params:
+                out.add(name)
+    return out
+
+
+def _mentions_mapping(e, aliases=frozenset()) -> bool:
     """expression derived from the current keys: self.data / self.data.keys() / self / self.keys() ..."""
     for n in walk_self(e):
-        if _is_selfdata(n):
+        if _is_selfdata(n, aliases):
             return True
         if isinstance(n, ast.Name) and n.id == 'self':
             return True
@@ -3339,6 +3383,7 @@ def r4_resolution(run):
     if len(params) != 3:
         raise UnknownIdiom('resolver takes %s' % params)
     mt, dflt, rnf = params
+    dal = _data_aliases(res)           # `data = self.data` bound once inside the resolver
     # the requested type, the default, and the locals bound to text built from them (never the RESULT of a call that
     # receives them: what best-match answers is not the requested type)
     tnames = _derived_closure_of(res.node, {mt, dflt})
@@ -3353,9 +3398,9 @@ def r4_resolution(run):
     # exact lookups of the requested type and best-match calls
     def exact_lookup(n):
         for x in n.walk():
-            if isinstance(x, ast.Subscript) and isinstance(x.ctx, ast.Load) and _is_selfdata(x.value) and is_mt(x.slice):
+            if isinstance(x, ast.Subscript) and isinstance(x.ctx, ast.Load) and _is_selfdata(x.value, dal) and is_mt(x.slice):
                 return x
-            if isinstance(x, ast.Call) and isinstance(x.func, ast.Attribute) and x.func.attr == 'get' and _is_selfdata(x.func.value) \
+            if isinstance(x, ast.Call) and isinstance(x.func, ast.Attribute) and x.func.attr == 'get' and _is_selfdata(x.func.value, dal) \
                     and x.args and is_mt(x.args[0]):
                 return x
         return None
@@ -3387,7 +3432,7 @@ def r4_resolution(run):
         observe[n.id] = lookup_key(exact_lookup(n))
     for n in B:
         c, _t = best_call(n)
-        wanted = [a for a in list(c.args) + [k.value for k in c.keywords] if not _mentions_mapping(a) and is_mt(a)]
+        wanted = [a for a in list(c.args) + [k.value for k in c.keywords] if not _mentions_mapping(a, dal) and is_mt(a)]
         if len(wanted) != 1 or n.id in observe:
             raise UnknownIdiom('resolver: best-match call %s' % short(c, 100))
         observe[n.id] = wanted[0]
@@ -3459,7 +3504,7 @@ def r4_resolution(run):
         c, t = best_call(b)
         roles = []
         for a in c.args:
-            if _mentions_mapping(a):
+            if _mentions_mapping(a, dal):
                 roles.append('keys')
             elif is_mt(a):
                 roles.append('wanted')
@@ -3543,7 +3588,7 @@ def r4_resolution(run):
     none_returns = set()
     for n in cfg.live_nodes():
         if n.kind == 'stmt' and isinstance(n.ast, ast.Return):
-            v = n.ast.value
+            v = _lit(p, res, n.ast.value) if n.ast.value is not None else None      # `return _UNRESOLVED` (module-level `(None, None, None)`)
             if isinstance(v, ast.Tuple) and v.elts and all(isinstance(e, ast.Constant) and e.value is None for e in v.elts):
                 none_returns.add(n.id)
     for e in nomatch_edges:
@@ -4406,6 +4451,7 @@ def r9_same_case_form(run):
     if len(params) != 3:
         raise UnknownIdiom('resolver takes %s' % params)
     mt, dflt, _ = params
+    dal = _data_aliases(res)
     F = _Folds(res.node, mt, {dflt})
     names = F.names
 
@@ -4428,7 +4474,7 @@ def r9_same_case_form(run):
             opnames -= (tgts - {mt, dflt})                 # also bound to something else (the best-match answer): not the type
     n_ops = 0
     for n in walk_self(res.node):
-        if isinstance(n, ast.Subscript) and isinstance(n.ctx, ast.Load) and _is_selfdata(n.value) and _text_derived(n.slice, opnames):
+        if isinstance(n, ast.Subscript) and isinstance(n.ctx, ast.Load) and _is_selfdata(n.value, dal) and _text_derived(n.slice, opnames):
             n_ops += 1
             if F.folds(n.slice):
                 req.append((n, sorted(F.folds(n.slice))))
@@ -4436,14 +4482,14 @@ def r9_same_case_form(run):
             t = p.resolve_callable(res, n.func)
             if isinstance(t, Func) and t.qual in (BRIDGE, MEDIATYPES + '.best_match'):
                 for a in list(n.args) + [k.value for k in n.keywords]:
-                    if _mentions_mapping(a):
+                    if _mentions_mapping(a, dal):
                         if any(isinstance(x, ast.Call) and isinstance(x.func, ast.Attribute) and x.func.attr in CASE_FOLDS for x in ast.walk(a)):
                             raise UnknownIdiom('resolver: the keys are case-folded only for the comparison in %s' % short(n, 80))
                     elif _text_derived(a, opnames):
                         n_ops += 1
                         if F.folds(a):
                             req.append((n, sorted(F.folds(a))))
-            elif isinstance(n.func, ast.Attribute) and n.func.attr == 'get' and _is_selfdata(n.func.value) and n.args \
+            elif isinstance(n.func, ast.Attribute) and n.func.attr == 'get' and _is_selfdata(n.func.value, dal) and n.args \
                     and _text_derived(n.args[0], opnames):
                 n_ops += 1
                 if F.folds(n.args[0]):
